@@ -21,7 +21,7 @@ ID = "C04"
 LEVEL = "exploration"
 BATCH = 1
 TIMEOUT = 3000
-REQUIRED_OBS = ["element_sums_checked", "charge_sums_checked", "helper_values_checked", "backend_dense", "backend_sparse", "tag_spelling_upper_replace", "tag_G_prefix_file", "tag_grain_charge_states",
+REQUIRED_OBS = ["element_sums_checked", "charge_sums_checked", "helper_values_checked", "backend_dense", "backend_sparse", "tag_spelling_upper_replace", "tag_G_prefix_file", "tag_grain_charge_states", "tag_isotope_ice",
                 "tag_mixed_electron_spelling", "tag_ice_species", "tag_labelled_species"]
 RULE = ("networks balanced by construction (ions, electrons spelt e-/E-/E/e, ortho/para labels, D isotopologues, ice species "
         "with gas counterparts under '#' and 'G' prefixes, entry via API or merged files with different spellings) x injected "
@@ -109,6 +109,47 @@ def make_mixed_prefix_case(rng):
     return None
 
 
+def make_isotope_case(rng):
+    """Stratum: digit-leading isotope symbols from a user element list (13C, 18O, 15N) in gas and ice species next to the main isotopologues:
+    13CO / CO, #13CO / #CO, C18O ... are different species; balanced exchange, freeze-out and desorption reactions."""
+    M = chem.make_species
+    iso = rng.choice([("13C", "C"), ("18O", "O"), ("15N", "N")])
+    if iso[1] == "C":
+        heavy, light = [("13C", 1), ("O", 1)], [("C", 1), ("O", 1)]
+    elif iso[1] == "O":
+        heavy, light = [("C", 1), ("18O", 1)], [("C", 1), ("O", 1)]
+    else:
+        heavy, light = [("15N", 1), ("N", 1)], [("N", 2)]
+    sp = {}
+    def S_(parts, **kw):
+        s_ = M(parts, **kw)
+        sp[s_["name"]] = s_
+        return s_["name"]
+    gh, gl, ih, il = S_(heavy), S_(light), S_(heavy, surface=True), S_(light, surface=True)
+    ah, al = S_([(iso[0], 1)]), S_([(iso[1], 1)])
+    ahp, alp = S_([(iso[0], 1)], charge=1), S_([(iso[1], 1)], charge=1)
+    e = "e-"
+    sp[e] = M([], electron=e)
+    templ = [([gh], [ih]), ([gl], [il]), ([ih], [gh]), ([il], [gl]), ([ih, il], [il, ih]), ([ahp, gl], [alp, gh]) if iso[1] != "N" else ([ahp, al], [alp, ah]),
+             ([ahp, e], [ah]), ([alp, e], [al]), ([ih, ih], [gh, ih]), ([gh, alp], [gh, alp])]
+    rng.shuffle(templ)
+    reacs = [{"reactants": list(r), "products": list(p), "pseudo": None, "idx": i + 1} for i, (r, p) in enumerate(templ[:rng.randint(6, len(templ))])]
+    if not any(ih in r["reactants"] + r["products"] for r in reacs) or not any(il in r["reactants"] + r["products"] for r in reacs):
+        reacs += [{"reactants": [gh], "products": [ih], "pseudo": None, "idx": len(reacs) + 1}, {"reactants": [il], "products": [gl], "pseudo": None, "idx": len(reacs) + 2}]
+    used = {n for r in reacs for n in r["reactants"] + r["products"]}
+    net = {"species": [sp[n] for n in sorted(used)], "reactions": reacs}
+    case = {"net": net, "entry": "api", "indexed": True, "spelling": "isotopes", "stratum": "isotope_ice"}
+    case["alphas"] = chem.distinct_alphas(rng, len(reacs))
+    names = [s_["name"] for s_ in net["species"]]
+    case["ys"] = []
+    for _ in range(2):
+        yv = {n: 10 ** rng.uniform(-6, 6) for n in names}
+        yv["__TGAS__"] = 1e4
+        case["ys"].append(yv)
+    case["ks"] = [[rng.choice([-1, 1]) * 10 ** rng.uniform(-30, 30) for _ in range(len(reacs))] for _ in range(3)]
+    return case
+
+
 def make_case(rng, tier):
     surface = rng.random() < 0.4
     upper = rng.random() < 0.25
@@ -171,6 +212,8 @@ def gen_cases(tier):
         c = make_mixed_prefix_case(random.Random(rng.getrandbits(64)))
         if c:
             cases.append(c)
+    for _ in range(3 if tier == "quick" else 30):
+        cases.append(make_isotope_case(random.Random(rng.getrandbits(64))))
     # bundled real-world networks: the expected element / charge drift is computed per reaction from /verif's own compositions
     # (zero for every balanced reaction), so unbalanced reactions of a database network do not raise false alarms
     r = random.Random(rng.getrandbits(64))
@@ -322,6 +365,8 @@ def run_case(case, ctx):
         tags.add("deuterated")
     if case.get("grain_charging"):
         tags.add("grain_charge_states")
+    if case.get("stratum") == "isotope_ice":
+        tags.add("isotope_ice")
     if case.get("spelling"):
         tags.add("spelling_" + case["spelling"])
         if any(s["charge"] < 0 and not s["electron"] for s in species):
